@@ -549,12 +549,28 @@ def _shape_place(fn, pl, depth, seen):
     return base + suffix
 
 
+_RESTRICT = [None]
+
+
+def shape_on(fn, op_or_local, blocks, depth=12):
+    """shape() considering, at every level, only the definitions located in `blocks` (one path
+    through the body): no `alt(..)` is produced for values assigned once per path."""
+    old = _RESTRICT[0]
+    _RESTRICT[0] = set(blocks)
+    try:
+        return shape(fn, op_or_local, depth)
+    finally:
+        _RESTRICT[0] = old
+
+
 def _shape_local(fn, l, depth, seen):
     if l in seen or depth <= 0:
         return "_%d" % l
     seen = seen | {l}
     alts = []
     defs = fn.defs_of(l)
+    if _RESTRICT[0] is not None:
+        defs = [(bb, n) for bb, n in defs if bb in _RESTRICT[0]]
     if 1 <= l <= fn.j["arg_count"]:
         alts.append("p%d" % l)
     for bb, n in defs:
